@@ -59,8 +59,10 @@ def rules(P, R, prefix="C16"):
         R.judge(bool(re.search(r"HashMap<.*(VecDeque|Vec)<tokio::sync::oneshot::Sender", oty)), prefix + ".T4", key(new, "obligations hold a queue of waiters per key" + tag),
                 obv.get("sp", new.sp), oty[:140], "obligations map has type `%s`: at most one waiter per key can be remembered, a second notify_read on the "
                 "same key drops (or is dropped by) the first" % oty[:200])
-        struct_other = [fl for fl in (prog.structs.get(STORE) or {"fields": []})["fields"] if "rocksdb" in fl["ty"]]
-        R.judge(not struct_other, prefix + ".T1", "Store handle carries no database reference" + tag, "", "", "Store struct exposes %s" % [f["name"] for f in struct_other])
+        sfields = (prog.structs.get(STORE) or {"fields": []})["fields"]
+        struct_other = [fl for fl in sfields if "mpsc" not in fl["ty"] or "Sender" not in fl["ty"]]
+        R.judge(len(sfields) == 1 and not struct_other, prefix + ".T1", "Store handle = the command channel only (no per-handle state)" + tag, "", str([f["name"] for f in sfields]),
+                "Store handle has fields %s: state kept in a handle (cache, database reference) is invisible to writes made through other handles" % [(f["name"], f["ty"][:40]) for f in sfields])
 
         # ---------------- T2 sequential command loop
         body = clo["body"]
@@ -108,6 +110,11 @@ def rules(P, R, prefix="C16"):
                 okm = det == "%s(«Vec<u8>»,tokio::sync::oneshot::channel().0)" % var
                 tl = f.body.get("expr") if f.body["k"] == "block" else None
                 okm = okm and tl is not None and c2.term(tl) == "tokio::sync::oneshot::channel().1"
+            if okm:
+                pcs = env.flow(f).pathcond(ss[0])
+                okm = all(a.startswith(("ok(", "some(")) for a in atoms_of(pcs))
+                if not okm:
+                    det = "%s only under %s" % (det, show(pcs))
             R.judge(okm, prefix + ".T2", key(f, "sends exactly one %s command (and awaits its own reply)%s" % (var, tag)), f.sp, det,
                     "Store::%s does not send exactly one %s(key, ..) command and return that command's reply: %s" % (meth, var, det))
 
@@ -195,6 +202,14 @@ def rules(P, R, prefix="C16"):
                 R.judge(paths is not None and not bad and n_p >= 2, prefix + ".T4", key(new, "NotifyRead: park exactly on a miss (same key, appended), else answer with the value" + tag),
                         a["body"]["sp"], "%d paths" % n_p, "; ".join(bad)[:600] or "paths not enumerable")
                 R.sample({"rule": prefix + ".T4", "read": G, "paths": n_p})
+
+        # ---------------- T6b waiters are never discarded: the obligations map is only appended to (NotifyRead) and emptied per key (Write)
+        omuts = [x for x in ir.walk(clo) if x["k"] == "mcall" and ctx.term(x["recv"]) == "local:" + obv["name"]]
+        for x, i in ordinal_keys(omuts, lambda y: y["name"]):
+            where = next((nm for nm, a in arms.items() if any(y is x for y in ir.walk(a["body"]))), None)
+            ok_ = (x["name"] in ("remove", "remove_entry") and where == "Write") or (x["name"] == "entry" and where == "NotifyRead") or x["name"] in ("len", "is_empty", "contains_key", "get")
+            R.judge(ok_, prefix + ".T6", key(new, "obligations.%s in the %s arm%s" % (x["name"], where, tag), i), x["sp"], "",
+                    "obligations.%s(..) in the %s arm: parked notify-read waiters can be discarded without being answered" % (x["name"], where))
 
         # ---------------- T5 read
         if "Read" in arms:
